@@ -12,7 +12,7 @@ package haproxy
 //@ count reload      = (*instance).Reload, (utils.QueueFacade).Add
 
 //@ func (*instance).HAProxyUpdate
-//@   props C12
+//@   props C12 C13
 //@   ensures no-commit-on-error: result != nil ==> calls(Commit) == 0
 //@   ensures commit-on-success:  result == nil && old(i.config) != nil ==> calls(Commit) == 1
 //@   ensures nil-config:         old(i.config) == nil ==> result == nil && calls(Commit) == 0 && calls(writeConfig) == 0 && calls(reload) == 0
@@ -156,12 +156,14 @@ package haproxy
 // the scans: accepted only if every pair was accepted
 //@ func (*dynUpdater).frontendUpdated
 //@   props C02
+//@   loop 2 step added: updated ==> found
 //@   ensures pairs: result ==> alltrue(CHP)
 //@   loop 3 invariant mono: updated ==> alltrue(CHP)
 //@ end
 
 //@ func (*dynUpdater).backendUpdated
 //@   props C02
+//@   loop 2 step added: updated ==> found
 //@   ensures pairs: result ==> alltrue(CBP)
 //@   loop 3 invariant mono: updated ==> alltrue(CBP)
 //@ end
@@ -184,11 +186,12 @@ package haproxy
 //@ count BuildShard   = (*types.Backends).BuildSortedShard
 
 //@ func (*instance).writeConfig
-//@   props C05
+//@   props C05 C12
 //@   ensures once:   calls(ChgShards) <= 1
 //@   ensures every:  result == nil && calls(ChgShards) == 1 ==> calls(BuildShard) == len(last(ChgShards))
 //@   loop 2 invariant each: 0 <= $idx(2) && $idx(2) <= len(last(ChgShards)) && calls(BuildShard) == $idx(2) && calls(ChgShards) == 1 && shards == last(ChgShards)
 //@   at call ChangedShards#1 assert main-first: calls(TmplWrite) == 3
+//@   at call ChangedShards#1 assert main-written: last(TmplWrite) == nil
 //@   at call BuildSortedShard#1 assert own-shard: $arg1 == shards[$idx(2)-1]
 //@ end
 
@@ -295,4 +298,22 @@ package haproxy
 //@ func (*instance).reloadWorker
 //@   props C12
 //@   ensures delivered: result == nil ==> calls(MasterSend) >= 1 && last(MasterSend).1 == nil
+//@ end
+
+// C11 — the derived configuration (SyncConfig: TLS-auth flags, strict-host
+// paths) is applied before Shrink compares the re-created backends with the
+// ones HAProxy runs; otherwise an endpoint-only change looks like a difference
+//@ count SyncCfg = (haproxy.Config).SyncConfig
+//@ func (*instance).HAProxyUpdate#order
+//@   props C11
+//@   requires cfg: i.config != nil
+//@   at call Shrink#1 assert synced-first: calls(SyncCfg) == 1
+//@ end
+
+// C05 — a full resync keeps the old backend collection for Backends.Clear, which
+// flags the shards that held backends
+//@ func (*config).Clear
+//@   props C05
+//@   assume-pre CreateBackends Backends).Clear
+//@   at call Clear#1 assert old-state: $arg0 == old(c.backends)
 //@ end
